@@ -5,6 +5,7 @@ This module provides the 'plan' command-line interface for generating
 reports from TaskJuggler (.tjp) project files.
 """
 
+import contextlib
 import hashlib
 import json
 import logging
@@ -128,13 +129,18 @@ taskreport {report_id} "{report_id}" {{
     temp_file = Path(temp_path)
 
     # Write combined content and close file descriptor
-    with os.fdopen(temp_fd, "w") as f:
-        # Include original file
-        f.write(f"# Original file: {tjp_path}\n")
-        f.write("# Auto-report added by plan CLI\n\n")
-        f.write(original_content)
-        f.write("\n\n")
-        f.write(auto_report)
+    try:
+        with os.fdopen(temp_fd, "w") as f:
+            # Include original file
+            f.write(f"# Original file: {tjp_path}\n")
+            f.write("# Auto-report added by plan CLI\n\n")
+            f.write(original_content)
+            f.write("\n\n")
+            f.write(auto_report)
+    except BaseException:
+        # The caller never learns the name of a half-written copy: remove it here
+        temp_file.unlink(missing_ok=True)
+        raise
 
     return temp_file, report_id
 
@@ -467,6 +473,16 @@ def report(ctx: click.Context, tjp_file: Optional[str], output_csv: bool, output
             shutil.rmtree(temp_output_dir)
 
         sys.exit(2)
+
+    finally:
+        # Whatever happened above (including a diagnostic that could not be written, or an
+        # interrupt), nothing stays behind in the temporary directory
+        for leftover in (temp_file, stdin_temp_file):
+            if leftover is not None:
+                with contextlib.suppress(OSError):
+                    leftover.unlink(missing_ok=True)
+        if temp_output_dir is not None:
+            shutil.rmtree(temp_output_dir, ignore_errors=True)
 
 
 @cli.command()
